@@ -260,3 +260,72 @@ func VC05IncreaseArbitrary() {
 }
 
 var _ = fmt.Sprint
+
+// Hook registration has a history: hooks registered one at a time or several at once on the same core, and
+// sibling cores derived from one hooked parent. A hook belongs to the core it was registered on and to the
+// cores derived from that one - never to a sibling.
+//
+//verif: prop=C05 bounds="a leaf with threshold any int8 below a parent with 1..3 hooks registered one at a time or 2..5 in one call; two sibling cores derived from the parent by RegisterHooks (and, one of them optionally, by With); one entry of level any int8 through the parent, either sibling or a grandchild: every hook fires exactly once iff it lies on that core's own path and the leaf accepts the entry"
+func VC05HookSiblings() {
+	leaf := vNewRecCore("leaf", vThreshold("leaf"))
+	counts := make([]int, 9)
+	hook := func(i int) func(Entry) error { return func(Entry) error { counts[i]++; return nil } }
+	var parent Core = leaf
+	nParent := 0
+	if vrt.Choice("at-once", 2) == 0 {
+		nParent = vrt.IntRange("parent-hooks", 1, 3)
+		for i := 0; i < nParent; i++ {
+			parent = RegisterHooks(parent, hook(i))
+		}
+	} else {
+		nParent = vrt.IntRange("parent-hooks", 2, 5)
+		hs := make([]func(Entry) error, nParent)
+		for i := range hs {
+			hs[i] = hook(i)
+		}
+		parent = RegisterHooks(parent, hs...)
+	}
+	a := RegisterHooks(parent, hook(5))
+	if vrt.Choice("a-with", 2) == 1 {
+		a = RegisterHooks(parent.With([]Field{{Key: "k", Type: Int64Type, Integer: 1}}), hook(5))
+	}
+	b := RegisterHooks(parent, hook(6))
+	grand := RegisterHooks(a, hook(7))
+	b2 := RegisterHooks(parent, hook(8))
+	var through Core
+	onPath := map[int]bool{}
+	for i := 0; i < nParent; i++ {
+		onPath[i] = true
+	}
+	switch vrt.Choice("through", 5) {
+	case 0:
+		through = parent
+	case 1:
+		through = a
+		onPath[5] = true
+	case 2:
+		through = b
+		onPath[6] = true
+	case 3:
+		through = grand
+		onPath[5], onPath[7] = true, true
+	case 4:
+		through = b2
+		onPath[8] = true
+	}
+	l := Level(vrt.Int8("level"))
+	if ce := through.Check(Entry{Level: l, Message: "m", Time: time.Unix(0, 0)}, nil); ce != nil {
+		ce.Write()
+	}
+	accepted := leaf.enab.Enabled(l)
+	vrt.Observe("accepted", accepted)
+	vrt.Assert("delivered-iff-enabled-on-path", (len(leaf.shared.writes) == 1) == accepted && len(leaf.shared.writes) <= 1)
+	for i := range counts {
+		want := 0
+		if accepted && onPath[i] {
+			want = 1
+		}
+		vrt.Assert("hook-once-iff-wrapped-core-accepted", counts[i] == want)
+	}
+	vrt.Cover("done")
+}
